@@ -178,11 +178,14 @@ def _remove_line_directives(csource, line_directives=None):
     markers = line_directives is not None
     if line_directives is None:
         line_directives = []
+    already = len(line_directives)
     def replace(m):
-        if markers and m.group().startswith('#line@'):
-            return m.group()
+        s = m.group()
+        if (markers and s.startswith('#line@') and s[6:].isdigit()
+                and int(s[6:]) < already):
+            return s
         i = len(line_directives)
-        line_directives.append(m.group())
+        line_directives.append(s)
         return '#line@%d' % i
     csource = _r_line_directive.sub(replace, csource)
     return csource, line_directives
